@@ -67,6 +67,50 @@ def gen_obj(rng, depth, slashkeys=0.0):
     return "{" + ",".join(ents) + "}"
 
 
+def gen_typed(rng, depth=2, slashkeys=0.0):
+    """the right-hand side of a typed assignment: number, string, jsonArray or jsonObject"""
+    x = rng.random()
+    if x < 0.35:
+        return rng.choice(["I0", "I5", "I-1", "B0", "B1"])
+    if x < 0.6:
+        return "S" + hx(rng.choice([b"", b"s", b"now a string"]))
+    if x < 0.78:
+        return "[" + ",".join(gen_value(rng, depth - 1, slashkeys) for _ in range(rng.randint(0, 2))) + "]"
+    return gen_obj(rng, depth, slashkeys)
+
+
+def gen_stale(rng):
+    """a path holds a container, is overwritten through a typed assignment (which keeps the old members), and is then
+    queried, touched, merged, removed at and below that path; objects, arrays and strings overwrite each other"""
+    base = b"/".join(rng.choice(KEYS) for _ in range(rng.choice([0, 1, 1, 2])))
+    sub = rng.choice(KEYS)
+    below = (base + b"/" + sub) if base else sub
+    deeper = below + b"/" + rng.choice(KEYS)
+    first = rng.choice(["{%s=I1}" % hx(sub), "{%s={%s=I2}}" % (hx(sub), hx(rng.choice(KEYS))), "{%s=[I1]}" % hx(sub),
+                        "[{%s=I1}]" % hx(sub), "S6f6c64"])
+    toks = []
+    if rng.random() < 0.3 and base:
+        toks.append("S:%s:I1" % hx(deeper))
+    else:
+        toks.append(rng.choice(["S", "t"]) + ":%s:%s" % (hx(base), first)) if first[0] in "{[S" else None
+    for _ in range(rng.randint(1, 3)):
+        kind = rng.random()
+        if kind < 0.6 or not base:
+            toks.append("t:%s:%s" % (hx(base), gen_typed(rng)))
+        elif b"/" in base:
+            toks.append("t:%s:%s" % (hx(base), gen_typed(rng)))
+        else:
+            toks.append("k:%s:%s" % (hx(base), gen_typed(rng)))
+        probes = ["H:" + hx(below), "H:" + hx(deeper), "G:" + hx(below), "D:%s:I9" % hx(below), "z:" + hx(base), "G:" + hx(base),
+                  "T:" + hx(below), "m:%s:{%s=I7}" % (hx(base), hx(sub)), "m:%s:{%s=I7}" % (hx(below), hx(sub)),
+                  "R:" + hx(below), "S:%s:I3" % hx(below), "M:{%s={%s=I8}}" % (hx(base.split(b"/")[0] or sub), hx(sub)),
+                  "K:%s:I4" % hx(sub), "k:%s:S78" % hx(sub), "Z"]
+        for q in rng.sample(probes, rng.randint(2, 5)):
+            toks.append(q)
+    toks += ["H:" + hx(below), "H:" + hx(deeper), "G:" + hx(base), "Z"]
+    return " ".join(t for t in toks if t)
+
+
 def gen_path(rng, known, odd):
     if known and rng.random() < 0.6:
         p = rng.choice(known)
@@ -120,8 +164,11 @@ def gen_aimed(rng):
 
 
 def gen_case(rng, tier):
-    if rng.random() < 0.08:
+    x0 = rng.random()
+    if x0 < 0.08:
         return gen_aimed(rng)
+    if x0 < 0.24:
+        return gen_stale(rng)
     odd = rng.choice([0.0, 0.0, 0.1, 0.3])
     slashkeys = rng.choice([0.0, 0.0, 0.0, 0.15, 0.4])
     known = []
@@ -130,8 +177,11 @@ def gen_case(rng, tier):
     for _ in range(nops):
         x = rng.random()
         p = gen_path(rng, known, odd)
-        if x < 0.24:
+        if x < 0.17:
             toks.append("S:%s:%s" % (hx(p), gen_value(rng, 2, slashkeys)))
+            known.append(p)
+        elif x < 0.24:
+            toks.append("t:%s:%s" % (hx(p), gen_typed(rng, 2, slashkeys)))
             known.append(p)
         elif x < 0.38:
             toks.append("G:" + hx(p))
@@ -155,7 +205,10 @@ def gen_case(rng, tier):
             toks.append("D:%s:%s" % (hx(p), gen_value(rng, 1)))
         else:
             k = rng.choice(ODD_KEYS + KEYS)
-            toks.append("K:%s:%s" % (hx(k), gen_value(rng, 2, slashkeys)))
+            if rng.random() < 0.5:
+                toks.append("K:%s:%s" % (hx(k), gen_value(rng, 2, slashkeys)))
+            else:
+                toks.append("k:%s:%s" % (hx(k), gen_typed(rng, 2, slashkeys)))
     # close with reads of what was written
     for p in rng.sample(known, min(len(known), 3)):
         toks.append(rng.choice(["G:", "H:", "z:"]) + hx(p))
@@ -170,6 +223,8 @@ def exhaustive_small():
     for p in paths:
         writes += ["S:%s:I1" % hx(p), "T:" + hx(p), "R:" + hx(p), "m:%s:{%s=I2}" % (hx(p), hx(b"c")), "S:%s:{}" % hx(p)]
     writes += ["M:{%s={%s=I3}}" % (hx(b"a"), hx(b"b")), "M:{%s=I4}" % hx(b"a")]
+    writes += ["t:%s:I5" % hx(b"a"), "t:%s:S73" % hx(b"a/b"), "t:%s:[I1]" % hx(b"a"), "t:%s:{%s=I6}" % (hx(b"a"), hx(b"c")),
+               "k:%s:I7" % hx(b"a"), "t::S72"]
     probes = " ".join(["G:" + hx(p) for p in paths] + ["H:" + hx(p) for p in paths] + ["Z", "z:" + hx(b"a")])
     cases = []
     for w1 in writes:
@@ -208,12 +263,39 @@ def shrink_history(case, fails_batch, rounds=30, width=64):
 
 def nontrivial(case):
     t = case.split()
-    writes = [x for x in t if x[0] in "SKRMmT"]
+    writes = [x for x in t if x[0] in "SKRMmTtk"]
     reads = [x for x in t if x[0] in "GHDz" and "2f" in x]
     return len(t) >= 3 and len(writes) >= 1 and len(reads) >= 1
 
 
-SIGNATURES = {}
+VARIANT = dict(set_no_clear=False)      # filled by detect_variant()
+
+
+def sig_set_on_stale(case):
+    """json::set after the value itself (the empty path) was overwritten through a typed assignment"""
+    t = case.split()
+    for i, a in enumerate(t):
+        if a.startswith("t::") and VARIANT["set_no_clear"]:
+            if any(b[0] in "Kk" for b in t[i + 1:]):
+                return True
+    return False
+
+
+SIGNATURES = {"set_on_stale_value": sig_set_on_stale}
+
+
+def detect_variant(impl, env):
+    """Does json::set clear a non-object before making it an object (fixes/C25-3.patch) or not (pinned)?  The model has
+    both; one probe selects."""
+    out = C.run_impl_isolating([impl], ["S:61:I1 t::S73 K:6b:I2"], env=env)
+    VARIANT["set_no_clear"] = ";D={61=I1,6b=I2}" in out[0]
+    os.environ["C25_SET_NO_CLEAR"] = "1" if VARIANT["set_no_clear"] else "0"
+    return dict(VARIANT, probe_output=out[0])
+
+
+def view(obs):
+    """what the specification speaks about: everything but the dump of the hidden members"""
+    return obs.split(";X=")[0]
 
 _orig_load_known = C.load_known_findings
 
@@ -256,7 +338,8 @@ def run(run, tier, seed, replay_case=None):
         cases = [replay_case]
     env = dict(C.lib_env("asan"))
     env["ASAN_OPTIONS"] += ":symbolize=0"
-    D = C.Differential(run, PROP, [impl], model, env, signatures=SIGNATURES, keep_first=0,
+    run.coverage["json_set_variant"] = detect_variant(impl, env)
+    D = C.Differential(run, PROP, [impl], model, env, view=view, signatures=SIGNATURES, keep_first=0,
                        model_desc="coq/C25/Model.v vs src/types/json.cpp (path functions)")
     I, R, S = D.eval(cases)
 
@@ -266,7 +349,7 @@ def run(run, tier, seed, replay_case=None):
 
     def first_diff(i):
         """the operation whose observation differs first (D = only the final value differs)"""
-        a, b, toks = I[i][2:].split(";"), S[i][2:].split(";"), cases[i].split()
+        a, b, toks = view(I[i])[2:].split(";"), S[i][2:].split(";"), cases[i].split()
         for n, (x, y) in enumerate(zip(a, b)):
             if x != y:
                 return toks[n][0] if n < len(toks) else "D"
@@ -307,7 +390,7 @@ def run(run, tier, seed, replay_case=None):
                    "distinct = distinct case text")
     pick = [0, len(cases) // 2, len(cases) - 1]
     cov["samples"] = [dict(case=cases[i], impl=I[i][:300], model=R[i][:300], spec=S[i][:300]) for i in pick if i < len(cases)]
-    cov["op_mix"] = {k: sum(sum(1 for t in c.split() if t[0] == k) for c in cases) for k in "GDHZzSKRMmT"}
+    cov["op_mix"] = {k: sum(sum(1 for t in c.split() if t[0] == k) for c in cases) for k in "GDHZzSKRMmTtk"}
     run.assumptions = ["histories start from a default-constructed (none) json and only use the public API",
                        "+= is exercised with object or none right-hand sides (what the property speaks about)",
                        "values are built clean (no stale members of value_ hidden behind the type tag)"]
